@@ -59,15 +59,14 @@ class AdaptationManager(HasTraits):
         # interface).
         supertypes = inspect.getmro(from_type)[1:]
 
+        # With multiple inheritance the providing classes need not be
+        # contiguous in the MRO (a mixin that comes first does not provide
+        # the protocol of a later base): the distance is the position of the
+        # last class that still provides it.
         distance = 0
-        for t in supertypes:
+        for position, t in enumerate(supertypes, 1):
             if AdaptationManager.provides_protocol(t, to_protocol):
-                distance += 1
-
-            # We have reached the point in the MRO where the protocol is no
-            # longer provided.
-            else:
-                break
+                distance = position
 
         return distance
 
